@@ -109,6 +109,8 @@ pub enum Sel {
     Multi(Vec<Sel>),
     Composite(Vec<Sel>),
     Directional(Vec<Sel>),
+    /// no target at all (the builder is submitted without a target): must be refused
+    Missing,
 }
 
 impl Sel {
@@ -126,6 +128,7 @@ impl Sel {
             Sel::Multi(_) => "MultiSelector",
             Sel::Composite(_) => "CompositeSelector",
             Sel::Directional(_) => "DirectionalSelector",
+            Sel::Missing => "(no target)",
         }
     }
 }
